@@ -155,7 +155,18 @@ def replay(case):
             if not exc:
                 ev["stracc"] = sacc
                 ev["strtext"] = str(Regex(text))
-        return [ev]
+        evs = [ev]
+        # the object that was queried above is asked for its grammar twice, the second time with another start symbol
+        r5 = guard.call(rx.to_cfg, timeout=4.0)
+        r6 = guard.call(lambda: rx.to_cfg(starting_symbol="T"), timeout=4.0)
+        for k, rr in enumerate((r5, r6)):
+            e2 = {"op": "regex_cfg_again", "toks": case["toks"], "alph": talph, "L": case["L"], "call": k}
+            if rr[0] == "ok":
+                e2["G"] = cfgh.project(rr[1])
+            else:
+                e2["exc"] = rr[1] if rr[0] == "exc" else "Timeout"
+            evs.append(e2)
+        return evs
     # combinators
     ta, tb = render(case["toksA"], "spaced"), render(case["toksB"], "spaced")
     evs = []
